@@ -2,6 +2,7 @@
 //   - verifPreLock("<func>") before every statement  x.Lock() / x.RLock()
 //   - verifHeld(1) after it, verifHeld(-1) before every x.Unlock() / x.RUnlock()
 //     (also inside `defer x.Unlock()`)
+//   - verifPreLock("<func>:unlocked") after every statement x.Unlock() / x.RUnlock()
 // so that the simulator can preempt a goroutine immediately before any lock acquisition and
 // never parks one that holds a lock. If a lock call appears in a form it does not handle, it
 // reports it and exits with status 3: the build then uses the uninstrumented tree.
@@ -59,7 +60,8 @@ func (r *rewriter) stmts(list []ast.Stmt) []ast.Stmt {
 				case "Lock", "RLock":
 					out = append(out, call("verifPreLock", lit(r.fn)), st, call("verifHeld", num("1")))
 				default:
-					out = append(out, call("verifHeld", &ast.UnaryExpr{Op: token.SUB, X: num("1")}), st)
+					// and a yield right after the release: the moment a waiter gets in
+					out = append(out, call("verifHeld", &ast.UnaryExpr{Op: token.SUB, X: num("1")}), st, call("verifPreLock", lit(r.fn+":unlocked")))
 				}
 				continue
 			}
